@@ -72,10 +72,18 @@ Fixpoint restore_all (fs : list frame) (m : nat -> word) : nat -> word :=
   | [] => m
   | f :: t => restore_all t (if is_tramp (fip f) then m else upd m (floc f) (fip f))
   end.
+(* mcount_rstack_rehook walks from the oldest entry to the newest (since fix C01-9): of the frames of a tail-call
+   chain, which share one slot, the newest writes last *)
 Fixpoint rehook_all (fs : list frame) (m : nat -> word) : nat -> word :=
   match fs with
   | [] => m
-  | f :: t => rehook_all t (upd m (floc f) (Tramp (hk (fkind f))))
+  | f :: t => upd (rehook_all t m) (floc f) (Tramp (hk (fkind f)))
+  end.
+(* the walk as it was before the fix: newest entry first, so the OLDEST frame of a chain wrote last *)
+Fixpoint rehook_all_legacy (fs : list frame) (m : nat -> word) : nat -> word :=
+  match fs with
+  | [] => m
+  | f :: t => rehook_all_legacy t (upd m (floc f) (Tramp (hk (fkind f))))
   end.
 
 (* __mcount_entry (k = KM) / __plthook_entry (k = KP) on the path that hooks the call *)
